@@ -109,80 +109,34 @@ def minus_the_mask(ctx):
             ctx.check(none_guard or empty or uses, '%s#return@%s' % (name, ''.join(unparse(v).split())[:30]),
                       'guarded by mask is None / empty / filtered by the mask',
                       '%s can return %s without subtracting the mask' % (name, unparse(v)[:80]), f, r)
-    # collapse_at / collapse_as: explicit subtraction
-    f = ctx.func(CL + ':collapse_at')
-    last = sorted([r for r in walk_no_nested(f.node) if isinstance(r, ast.Return)], key=lambda r: r.lineno)[-1]
-    want = T.term(ast.parse('set(i for i in params if i not in mask)', mode='eval').body)
-    ctx.check(t(last.value) == want, 'collapse_at#subtract', 'params not in mask', 'collapse_at filters as %s' % unparse(last.value), f, last)
-    f = ctx.func(CL + ':collapse_as')
-    last = sorted([r for r in walk_no_nested(f.node) if isinstance(r, ast.Return)], key=lambda r: r.lineno)[-1]
-    want = T.term(ast.parse('set(tuple(i) for i in distances if not mask(i))', mode='eval').body)
-    ctx.check(t(last.value) == want, 'collapse_as#subtract', 'pairs not selected by the mask', 'collapse_as filters as %s' % unparse(last.value), f, last)
-    msel = [s_ for s_ in f.node.body if isinstance(s_, ast.Assign) and isinstance(s_.targets[0], ast.Name) and s_.targets[0].id == 'mask']
-    ctx.check(bool(msel) and ''.join(unparse(msel[-1].value).split()) == 'selector(mask)', 'collapse_as#selector', 'mask turned into a selector',
-              'collapse_as builds its mask test as %s' % (unparse(msel[-1].value) if msel else None), f, msel[-1] if msel else f.node)
+    # the detectors' own subtraction and the mask filters: behavioural summaries against reference transcriptions
+    from .c11_refs import REFS
+    for nm, what in (('collapse_at', 'returns the collapsed parameters not in the mask'), ('collapse_as', 'returns the collapsed pairs not selected by the mask'),
+                     ('_split_mask', 'pairs and indices of a mask'), ('_pair_selector', 'a pair is masked if listed in either order'),
+                     ('_index_selector', 'a pair is masked if either index is masked'), ('selector', 'a pair is masked if the pair or either index is masked'),
+                     ('_weight_filter', 'no mask -> identity; otherwise the mask is subtracted'), ('_position_filter', 'no mask -> identity; otherwise the mask and its mirror are subtracted')):
+        g = ctx.func('%s:%s' % (CL, nm))
+        got, want = SB.agree(g.node, REFS['%s:%s' % (CL, nm)], strict_casts=True)
+        ctx.stats['terms_compared'] += len(got)
+        ctx.check(got == want, nm, what, '%s differs from its confirmed behaviour: %s' % (nm, SB.diff(got, want)), g, g.node)
     f = ctx.func(CL + ':collapse_cost')
-    ov = [s_ for s_ in f.node.body if isinstance(s_, ast.Assign) and isinstance(s_.targets[0], ast.Name) and s_.targets[0].id == 'results'
-          and isinstance(s_.value, ast.Call) and callee_text(s_.value) == 'interval_overlap']
-    finalret = sorted([r for r in walk_no_nested(f.node) if isinstance(r, ast.Return)], key=lambda r: r.lineno)[-1]
-    ctx.check(bool(ov) and [unparse(a) for a in ov[0].value.args] == ['results', 'mask'] and ov[0].lineno < finalret.lineno and
-              t(finalret.value) == T.term(ast.parse('{} if results == mask else results', mode='eval').body), 'collapse_cost#overlap',
-              'with a mask the result is interval_overlap(results, mask) (empty when nothing new)', 'collapse_cost no longer intersects its result with the mask', f, finalret)
-    sel = ctx.func(CL + ':selector')
-    src = ''.join(unparse(sel.node).split())
-    ctx.check('lambdax:_pair_selector(pairs)(x)or_index_selector(indices)(x)' in src, 'selector', 'a pair is masked if the pair or either index is masked',
-              'selector changed: %s' % src[-120:], sel, sel.node)
-    for fname, subs in (('_weight_filter', ['x-mask', "j-(mask[i]ifiinmaskelseset())", 'inotin_zip(*mask)']),
-                        ('_position_filter', ['x-mask-_mask', "j-_symmetric(mask[i]ifiinmaskelseset())", 'inotin_zip(*mask)'])):
-        g = ctx.func('%s:%s' % (CL, fname))
-        src = ''.join(unparse(g.node).split())
-        for sub in subs:
-            ctx.check(sub in src, '%s#%s' % (fname, sub), 'filter subtracts the mask (%s)' % sub, '%s no longer subtracts the mask via `%s`' % (fname, sub), g, g.node)
-        first = [s for s in g.node.body if isinstance(s, ast.If)]
-        ctx.check(bool(first) and ''.join(unparse(first[0].test).split()) == 'maskisNone' and 'selector=lambdax:x' in ''.join(unparse(first[0]).split()),
-                  fname + '#none', 'no mask -> identity', 'the no-mask branch is no longer the identity', g, first[0] if first else g.node)
+    ov = calls_where(f.node, lambda c: callee_text(c).split('.')[-1] == 'interval_overlap', include_lambda=False)
+    ctx.check(bool(ov) and len(ov[0].args) >= 2 and isinstance(ov[0].args[1], ast.Name) and ov[0].args[1].id == 'mask', 'collapse_cost#overlap',
+              'with a mask the result is interval_overlap(results, mask) (C11.i checks the rest)', 'collapse_cost no longer intersects its result with the mask', f, ov[0] if ov else f.node)
 
 
 @rule('C11.c', min_instances=6)
 def detector_formulas(ctx):
     """collapse_at: ptp(window) <= tol or max|window-target| <= tol; collapse_as: max / ptp of pairwise distances; collapse_weight: max(weights) <= tol; window = last `generations` records"""
-    f = ctx.func(CL + ':collapse_at')
-    ifs = [s for s in f.node.body if isinstance(s, ast.If) and ''.join(unparse(s.test).split()) == 'targetisNone']
-    ctx.need(ifs, 'collapse_at: target dispatch not found')
-    a = ''.join(unparse(ifs[0].body[0].value).split())
-    b = ''.join(unparse(ifs[0].orelse[0].value).split())
-    ctx.check(a == 'np.ptp(params,axis=0)<=tolerance' and b == 'abs(params-target).max(axis=0)<=tolerance', 'collapse_at#test',
-              'ptp(window) <= tol | max|window - target| <= tol', 'collapse_at tests %s / %s' % (a, b), f, ifs[0])
-    win = [s for s in f.node.body if isinstance(s, ast.Assign) and '_solutions' in unparse(s.value)]
-    ctx.check(bool(win) and ''.join(unparse(win[0].value).split()) == '_m._solutions(stepmon,generations)', 'collapse_at#window', 'window = last `generations` solutions',
-              'collapse_at window is %s' % (unparse(win[0].value) if win else None), f, win[0] if win else f.node)
-    f = ctx.func(CL + ':collapse_as')
-    ifs = [s for s in f.node.body if isinstance(s, ast.If) and any(isinstance(n, ast.Name) and n.id == 'offset' for n in ast.walk(s.test))]
-    ctx.need(ifs, 'collapse_as: offset dispatch not found')
-    tt = t(ifs[0].test)
-    if tt == ('name', 'offset'):
-        onb, offb = ifs[0].body, ifs[0].orelse
-    elif tt == ('not', ('name', 'offset')):
-        onb, offb = ifs[0].orelse, ifs[0].body
-    else:
-        ctx.undecided('collapse_as: unrecognised offset test %s' % unparse(ifs[0].test))
-    a = t(onb[0].value)
-    b = t(offb[0].value)
-    wa = T.term(ast.parse('np.ptp(distances, axis=0) <= tolerance', mode='eval').body)
-    wb = T.term(ast.parse('distances.max(axis=0) <= tolerance', mode='eval').body)
-    ctx.check(a == wa and b == wb, 'collapse_as#test', 'offset: ptp(pairwise) <= tol ; else max(pairwise) <= tol',
-              'collapse_as tests %s with offset / %s without' % (T.show(a), T.show(b)), f, ifs[0])
-    src = ''.join(unparse(f.node).split())
-    ctx.check('distances=_m._solutions(stepmon,generations)' in src and 'distances,pairs=pairwise(distances,True)' in src, 'collapse_as#window',
-              'pairwise distances over the last `generations` solutions', 'collapse_as window/pairing changed', f, f.node)
-    f = ctx.func(CL + ':collapse_weight')
-    w = [s for s in f.node.body if isinstance(s, ast.Assign) and '_weights' in unparse(s.value)]
-    ctx.check(bool(w) and ''.join(unparse(w[0].value).split()) == '_m._weights(stepmon,generations).max(axis=0)<=tolerance', 'collapse_weight#test',
-              'max over the window of each weight <= tol', 'collapse_weight tests %s' % (unparse(w[0].value) if w else None), f, w[0] if w else f.node)
-    f = ctx.func(CL + ':collapse_position')
-    src = ''.join(unparse(f.node).split())
-    ctx.check('distances=_m._positions(stepmon,generations)' in src and 'distances=distances.max(axis=0)<=tolerance' in src, 'collapse_position#test',
-              'max over the window of pairwise position distances <= tol', 'collapse_position test changed', f, f.node)
+    from .c11_refs import REFS
+    for nm, what in (('collapse_at', 'ptp(window) <= tol | max|window - target| <= tol over the last `generations` solutions'),
+                     ('collapse_as', 'offset: ptp(pairwise) <= tol ; else max(pairwise) <= tol over the last `generations` solutions'),
+                     ('collapse_weight', 'max over the window of each weight <= tol'),
+                     ('collapse_position', 'max over the window of pairwise position distances <= tol')):
+        g = ctx.func('%s:%s' % (CL, nm))
+        got, want = SB.agree(g.node, REFS['%s:%s' % (CL, nm)], strict_casts=True)
+        ctx.stats['terms_compared'] += len(got)
+        ctx.check(got == want, nm + '#test', what, '%s differs from its documented test: %s' % (nm, SB.diff(got, want)), g, g.node)
     s_ = ctx.func('mystic.monitors:_solutions')
     _same(ctx, s_, "def _solutions(monitor, last=None):\n    indx = last if last is None else -last\n    return numpy.array(monitor.x[indx:])\n",
           'monitors._solutions', 'last N entries = x[-N:]', '_solutions no longer returns the last N entries')
